@@ -255,10 +255,7 @@ func withWatchdog(f func() Verdict, d time.Duration) (v Verdict, hung bool) {
 func safely(f func() Verdict) (v Verdict) {
 	defer func() {
 		if r := recover(); r != nil {
-			st := string(debug.Stack())
-			if len(st) > 3000 {
-				st = st[:3000]
-			}
+			st := stableStack(string(debug.Stack()))
 			v = Verdict{OK: false, Detail: fmt.Sprintf("PANIC: %v\n%s", r, st)}
 			if strings.Contains(fmt.Sprint(r), "HARNESS:") {
 				v.Detail = "HARNESS " + v.Detail
@@ -276,6 +273,30 @@ func idClass(id string) string {
 		}
 	}
 	return id
+}
+
+// stableStack keeps only the file:line entries of the library and the harness
+// (no goroutine ids, no addresses), so that the same panic renders identically
+// on every re-execution.
+func stableStack(st string) string {
+	var out []string
+	for _, l := range strings.Split(st, "\n") {
+		l = strings.TrimSpace(l)
+		if !(strings.HasPrefix(l, "/repo/") || strings.HasPrefix(l, "/verif/engine/")) {
+			continue
+		}
+		if i := strings.Index(l, " +0x"); i >= 0 {
+			l = l[:i]
+		}
+		if strings.Contains(l, "core/core.go") {
+			continue
+		}
+		out = append(out, "  at "+l)
+		if len(out) >= 12 {
+			break
+		}
+	}
+	return strings.Join(out, "\n")
 }
 
 func sanitize(id string) string {
